@@ -386,6 +386,12 @@ def relation_templates(q):
                   ways=[['a1', 'a2', 'a3'], ['c0', 'c1', 'c2', 'c3', 'c0'], ['a3', 'a0', 'a1']], syms=dict(px=(1, 12), py=(1, 12)) if not q else dict(px=(3, 8), py=(6, 7))))
     # member ways that do not close: must be rejected and reported
     T.append(dict(name='open-ring', pts=dict(a0=(0, 0), a1=(8, 0), a2=(('dx', 0), ('dy', 0)), a3=(0, 8)), cycles=[], open=True, ways=[['a0', 'a1', 'a2'], ['a2', 'a3']], syms=dict(dx=(5, 9), dy=(5, 9)) if not q else dict(dx=(7, 8), dy=(8, 9))))
+    # two rings that touch in two nodes P and Q: four open paths from P to Q, more than two partial rings end in each split location, so the complex
+    # algorithm has to choose which paths to join (find_candidates); the whole figure is moved over positions around the coordinate origin
+    for dy in ((-50,) if q else (-52, -50, -49)):
+        fp = dict(P=(('dx', 50), 40 + dy), Q=(('dx', 50), 60 + dy), a=(('dx', 30), 50 + dy), b=(('dx', 40), 50 + dy), c=(('dx', 65), 50 + dy), d=(('dx', 100), 50 + dy))
+        T.append(dict(name='four-paths(dy=%d)' % dy, pts=fp, cycles=[['P', 'a', 'Q', 'b', 'P'], ['P', 'c', 'Q', 'd', 'P']], ways=[['P', 'a', 'Q'], ['Q', 'b', 'P'], ['P', 'c', 'Q'], ['P', 'd', 'Q']], free=['a', 'c'], counts=False,
+                      syms=dict(dx=(-56, -44)) if not q else dict(dx=(-52, -48))))
     return T
 
 
@@ -421,10 +427,10 @@ def harnesses(tier):
                      'the delivered outer ring is closed, has >= 4 points, does not touch itself, contains exactly the way\'s vertices, encloses the same region (doubled signed area) and is counter-clockwise',
                 bounds='triangles / quadrilaterals%s with vertices on a grid of (range+1)^2 points (one vertex fixed where stated: translation symmetry); floating point as exact rationals (find_enclosing_ring) / inside the proved range (intersection point)' % ('' if q else ' / pentagons')),
         Harness('assemble_relation', 'assemble', h_assemble_relation, mode='INT', opaque_fp=True, jobs=relation_templates(q), reach=('end', 'assembled', 'rejected'), wall=1500,
-                tests=[dict(_job=0, dx=3, dy=2), dict(_job=0, dx=-3, dy=2), dict(_job=0, dx=7, dy=2), dict(_job=2, hx=10, hy=50), dict(_job=3, dx=5, dy=5), dict(_job=4, dx=2), dict(_job=4, dx=10), dict(_job=6, dx=7, dy=8)],
+                tests=[dict(_job=0, dx=3, dy=2), dict(_job=0, dx=-3, dy=2), dict(_job=0, dx=7, dy=2), dict(_job=2, hx=10, hy=50), dict(_job=3, dx=5, dy=5), dict(_job=4, dx=2), dict(_job=4, dx=10), dict(_job=6, dx=7, dy=8), dict(_job=7, dx=-50)],
                 desc='the real area::Assembler on multipolygon relations built from templates (a ring cut into open ways, reversed ways, member order; a triangle moved over a grid through inside / touching / crossing / outside positions; '
-                     'two inner rings touching a concave outer ring in two split locations with the far vertices of one moving; island in hole in square; two separate squares; an outer corner moving; member ways that do not close): '
+                     'two inner rings touching a concave outer ring in two split locations with the far vertices of one moving; island in hole in square; two separate squares; an outer corner moving; member ways that do not close; two rings touching in two nodes = four paths between two split locations, moved around the coordinate origin): '
                      'whenever the cycles form a valid arrangement (exact reference: segments meet only in shared nodes) an area is produced whose rings are closed, simple, outer counter-clockwise / inner clockwise, every inner ring inside the outer ring it is attached to, '
                      'ring counts equal to the even-odd nesting depth count and outer-minus-inner area equal to the even-odd fill; arrangements with properly crossing segments and open rings give no rings and a report',
-                bounds='7 templates with 1-2 symbolic translation / vertex variables over the stated grids (<= 17 x 13 positions); <= 14 segments; floating point as exact rationals (find_enclosing_ring) / inside the proved range (intersection point); tags, roles and the old-style tag logic are not varied'),
+                bounds='8 templates with 1-2 symbolic translation / vertex variables over the stated grids (<= 17 x 13 positions); <= 14 segments; floating point as exact rationals (find_enclosing_ring) / inside the proved range (intersection point); tags, roles and the old-style tag logic are not varied'),
     ]
